@@ -7,11 +7,17 @@ C04 — the operation graph is a faithful image of the expression the program wr
 * per-command theorems about `exec` (for all register files and states): a binary operation
   records its operands in the written order, `if_else` its condition and branches in order,
   a `k + x` with a Python int records `x + Integer(k)`; one node per executed operation (fresh id).
-* the whole-program statement (`unfold (compile P) o = fold (src P o)` with sharing) is decided by
-  the oracle `oracle/term.py` on every real MIR; its Lean proof is work in progress.
+* `records_persist` / `bin_node_survives` (whole programs, induction over the command list on top of the typed-store
+  invariant): along every clean run — the hypothesis of the typed-store layer, evaluated by the driver on every generated
+  program — a record, once stored, is what the store returns for its id for ever after (an input record may be re-typed
+  in place, it stays that input); so the node an executed operation left is the node the compiler reads, whatever is traced,
+  rejected or aborted afterwards.
+* the term-level statement (`unfold (compile P) o = fold (src P o)` with sharing) is decided by the oracle `oracle/term.py`
+  on every real MIR.
 -/
 import NadaVerif.Props.C12
 import NadaVerif.Spec.Schema
+import NadaVerif.Lemmas.Persist
 
 namespace NadaVerif.C04
 open NadaVerif NadaVerif.Spec NadaVerif.Generated
@@ -56,5 +62,70 @@ theorem random_is_fresh_node (t : STy) (h : t.mode = .sec) :
       (.ok ([.val (.scalar t (some (s.counter + 1)) none)], frames),
        { s with counter := s.counter + 1, ops := (s.counter + 1, .random (.scalar t.mirName)) :: s.ops }) := by
   simp_exec [scalarResult, typeRandom, h]
+
+/-- **What was recorded stays recorded**: after the clean program `cs`, whatever clean continuation `more` is traced
+(accepted, rejected and aborted commands alike), every operation record of the store is unchanged and every input record
+is still an input record. -/
+theorem records_persist (cs more : List Cmd) (h1 : Lemmas.CleanRun {} cs) (h2 : Lemmas.CleanRun (runCmds {} cs).1 more) :
+    Lemmas.Persist (runCmds {} cs).1.st (runCmds (runCmds {} cs).1 more).1.st := by
+  have hok : Lemmas.MachOK (runCmds {} cs).1 := Lemmas.runCmds_ok cs {} ⟨by simp [Lemmas.WFops], by simp [Lemmas.RegsLe]⟩
+  have hsto := Lemmas.trace_stored cs
+  have hJ := Lemmas.runCmds_typed cs {} ⟨by simp [Lemmas.WFops], by simp [Lemmas.RegsLe]⟩ Lemmas.machSto_init Lemmas.J_init h1
+  exact Lemmas.runCmds_persist more _ hok hsto hJ h2
+
+/-- the executable form of the hypothesis (what the driver evaluates on every generated program) -/
+theorem records_persistB (cs more : List Cmd) (h1 : Edge.cleanRunB {} cs = true)
+    (h2 : Edge.cleanRunB (runCmds {} cs).1 more = true) :
+    Lemmas.Persist (runCmds {} cs).1.st (runCmds (runCmds {} cs).1 more).1.st :=
+  records_persist cs more (Lemmas.cleanRunB_sound cs {} h1) (Lemmas.cleanRunB_sound more _ h2)
+
+/-- **The node of an executed operation is the node the compiler reads**: a binary operation executed after the clean
+program `cs` leaves `ca op cb` under the next id, with the operands in written order, and that is what the store returns
+for this id after any clean continuation. -/
+theorem bin_node_survives (cs more : List Cmd) (op : BinOp) (a b : Reg) (ta tb t : STy) (ca cb : Id) (la lb : Option LitVal)
+    (h1 : Lemmas.CleanRun {} cs)
+    (ha : (runCmds {} cs).1.regs[a]? = some (.val (.scalar ta (some ca) la)))
+    (hb : (runCmds {} cs).1.regs[b]? = some (.val (.scalar tb (some cb) lb)))
+    (ht : typeBin op ta tb = .ok t false)
+    (h2 : Lemmas.CleanRun (runCmds {} cs).1 (.bin op a b :: more)) :
+    (runCmds (runCmds {} cs).1 (.bin op a b :: more)).1.st.lookup ((runCmds {} cs).1.st.counter + 1) =
+      some (.binary op.mirName ca cb (.scalar t.mirName)) := by
+  have hp := records_persist (cs ++ [.bin op a b]) more
+  have hrun : ∀ (l1 l2 : List Cmd) (m : Mach), (runCmds m (l1 ++ l2)).1 = (runCmds (runCmds m l1).1 l2).1 := by
+    intro l1
+    induction l1 with
+    | nil => intro l2 m; rfl
+    | cons c l1 ih => intro l2 m; simp only [List.cons_append, runCmds]; exact ih l2 _
+  have hclean : ∀ (l1 l2 : List Cmd) (m : Mach), Lemmas.CleanRun m l1 → Lemmas.CleanRun (runCmds m l1).1 l2 → Lemmas.CleanRun m (l1 ++ l2) := by
+    intro l1
+    induction l1 with
+    | nil => intro l2 m _ h; exact h
+    | cons c l1 ih => intro l2 m h h'; exact ⟨h.1, ih l2 _ h.2 (by simpa only [runCmds] using h')⟩
+  have hstep : (runCmds {} (cs ++ [.bin op a b])).1 = (step (runCmds {} cs).1 (.bin op a b)).1 := by
+    rw [hrun]; rfl
+  have h3 : Lemmas.CleanRun {} (cs ++ [.bin op a b]) := hclean cs [.bin op a b] {} h1 ⟨h2.1, trivial⟩
+  have h4 : Lemmas.CleanRun (runCmds {} (cs ++ [.bin op a b])).1 more := by rw [hstep]; exact h2.2
+  have hp := hp h3 h4
+  have hexec := bin_operand_order (runCmds {} cs).1.regs (runCmds {} cs).1.frames (runCmds {} cs).1.st op a b ta tb t ca cb la lb ha hb ht
+  have hlook : (runCmds {} (cs ++ [.bin op a b])).1.st.lookup ((runCmds {} cs).1.st.counter + 1) =
+      some (.binary op.mirName ca cb (.scalar t.mirName)) := by
+    rw [hstep]
+    unfold step
+    rw [hexec]
+    simp [St.lookup]
+  have := (hp _ _ hlook).1 rfl
+  rw [hstep] at this
+  simpa only [runCmds] using this
+
+/-- Non-vacuity: a clean program (two inputs, a sum), continued by a clean program that re-types an input into an array,
+multiplies, and is rejected once: the hypotheses of `bin_node_survives` hold and the sum's node is still there. -/
+def firstPart : List Cmd :=
+  [.party "P", .inputObj "a" "" 0, .wrap ⟨.sec, .int⟩ 1, .inputObj "b" "" 0, .wrap ⟨.pub, .int⟩ 3]
+def laterPart : List Cmd :=
+  [.inputObj "c" "" 0, .wrap ⟨.sec, .int⟩ 6, .arrayOf 7 (some 3), .bin .mul 2 4, .bin .add 0 2, .lit .int (.int 5)]
+example :
+    Edge.cleanRunB {} firstPart = true ∧ Edge.cleanRunB (runCmds {} firstPart).1 (.bin .add 2 4 :: laterPart) = true ∧
+    (runCmds (runCmds {} firstPart).1 (.bin .add 2 4 :: laterPart)).1.st.lookup 3 =
+      some (.binary "Addition" 1 2 (.scalar "SecretInteger")) := by decide +kernel
 
 end NadaVerif.C04
